@@ -273,6 +273,13 @@ func (d *restDriver) jobOCRA(c *ctx, tag string, probe bool, validate bool) job 
 			x = cfgSuiteArg(Cfg{Raw: S(name)})
 		}
 		sa = x
+		if c.rng.Intn(3) == 0 {
+			// both spellings in one request, describing different suites: the suite string decides, on generation
+			// and on validation alike (Rest: OCRASuite)
+			cf := c.handBuilt(c.rng.Intn(32), c.rng.Intn(3), 4+c.rng.Intn(7), nil)
+			cf.Raw = B{}
+			q.Suite = RSuite{P: true, Hash: S([]string{"SHA1", "SHA256", "SHA512"}[cf.Hash]), Cfg: cf}
+		}
 	}
 	in := c.admissibleInput(sa.su.Cfg, c.rng.Intn(8))
 	if c.rng.Intn(8) == 0 { // inadmissible input
